@@ -315,6 +315,9 @@ type node struct {
 	closeOnce sync.Once
 	closed    chan struct{} // closed when Syncer.Close has returned
 	closeCall atomic.Bool
+
+	close2Once sync.Once
+	closed2    chan struct{} // closed when a SECOND, overlapping Syncer.Close has returned
 }
 
 type nodeCfg struct {
@@ -343,7 +346,7 @@ func newNode(c nodeCfg) (*node, error) {
 	if c.Discovery == 0 {
 		c.Discovery = time.Hour
 	}
-	nd := &node{rec: rec, genesis: genesis.ID(), runErr: make(chan error, 1), closed: make(chan struct{})}
+	nd := &node{rec: rec, genesis: genesis.ID(), runErr: make(chan error, 1), closed: make(chan struct{}), closed2: make(chan struct{})}
 	nd.cm = newGateCM(chain.NewManager(store, ts), rec, c.SubnetOf)
 	nd.ps = newGatePS(rec)
 	l, err := net.Listen("tcp", "127.0.0.1:0")
@@ -370,6 +373,25 @@ func (nd *node) beginClose() {
 			close(nd.closed)
 		}()
 	})
+}
+
+// beginClose2 calls Syncer.Close a second time while the first call may still be waiting (Stop2Begin).
+func (nd *node) beginClose2() {
+	nd.close2Once.Do(func() {
+		go func() {
+			nd.s.Close()
+			close(nd.closed2)
+		}()
+	})
+}
+
+func (nd *node) close2Returned() bool {
+	select {
+	case <-nd.closed2:
+		return true
+	default:
+		return false
+	}
 }
 
 func (nd *node) closeReturned() bool {
